@@ -15,6 +15,7 @@ class Protocol(Component):
     __nid = 0
     __events = {}
 
+    @handler(False)  # not an event handler: a peer firing 'init' would reset sock, server and both firewalls
     def init(self, sock=None, server=None, **kwargs):
         self.__server = server
         self.__sock = sock
